@@ -126,7 +126,7 @@ def config_dict(case, nodes=None, rs=None):
         if rs.get("max_runs") is not None:
             block["max_runs"] = rs["max_runs"]
         if rs.get("dry_run"):
-            block["dry_run"] = True
+            block["dry_run"] = rs.get("dry_run_spelling", True)       # true / 1 / 1.0: every truthy spelling asks for a dry run
         cfg["run_space"] = block
     return cfg
 
@@ -160,7 +160,7 @@ def fmt_val(v):
 
 def argv_of(case):
     a = case["args"]
-    out = ["run", "p.yaml" if case["file"] != "missing" else "absent.yaml", "-q"]
+    out = ["run", "p.yaml" if case["file"] != "missing" else "absent.yaml"] + ([a["verbosity"]] if a.get("verbosity", "-q") else [])
     if a.get("validate"):
         out.append("--validate")
     if a.get("dry_run"):
@@ -349,7 +349,7 @@ def base_pipeline(rng, multi=False, fail_key=False):
 
 def default_args():
     return {"validate": False, "dry_run": False, "rs_dry": False, "max_runs": None, "context": [], "bad_context": False,
-            "set": [], "set_bad": None, "bad_driver": False, "attempt": None, "rs_file": None}
+            "set": [], "set_bad": None, "bad_driver": False, "attempt": None, "rs_file": None, "verbosity": "-q"}
 
 
 def mk_case(rng, cls, flags=None, trace=None):
@@ -462,15 +462,24 @@ def mk_case(rng, cls, flags=None, trace=None):
         a["attempt"] = 0
     elif cls == "missing-context-key":
         pool = [k for k, _ in a["context"]]
-        if not pool:   # make the pipeline need something no node produces
-            nodes.insert(len(nodes) - 1, {"k": "divide"})
-            case["missing"] = "divisor"
+        if not pool:   # make the pipeline need something neither a node, nor the run space, nor the command line provides
+            provided = {k for b in ((case["rs"] or {}).get("blocks") or []) for k, _ in b["context"]}
+            kind, key = next((kk for kk in (("divide", "divisor"), ("add", "addend"), ("mul", "factor")) if kk[1] not in provided), ("divide", "divisor"))
+            if key in provided:      # everything is provided by the run space: drop one column instead
+                for b in case["rs"]["blocks"]:
+                    b["context"] = [c for c in b["context"] if c[0] != key or len(b["context"]) == 1]
+            nodes.insert(len(nodes) - 1, {"k": kind})
+            case["missing"] = key
         else:
             k = rng.choice(pool)
             a["context"] = [kv for kv in a["context"] if kv[0] != k]
             case["missing"] = k
     if case["rs"] is not None and cls != "run-space-duplicate-key-via-source" and rng.random() < 0.3:
         a["rs_file"] = rng.choice(["wrapped", "bare"])      # the run_space block lives in a separate file (--run-space-file)
+    if rng.random() < 0.3:
+        a["verbosity"] = rng.choice(["-v", "--verbose", None])      # the exit code does not depend on how much is printed
+    if case["rs"] is not None and case["rs"].get("dry_run"):
+        case["rs"]["dry_run_spelling"] = rng.choice([True, 1, 1.0])
     if flags:
         a.update(flags)
     return case
@@ -554,6 +563,13 @@ def gen_cases(rng, n_random, matrix=True):
             cases.append(mk_case(rng, cls, flags=fl, trace="yaml"))
         for how in ("implicit-single-run", "yaml", "cli"):
             cases.append(cap_zero_case(rng, how))
+        # verbose output and failing runs; a run-space dry run asked for with a truthy non-bool
+        for cls, vb in (("runtime-fail", "-v"), ("multi-fail", "--verbose"), ("runtime-fail", None), ("valid", "-v")):
+            cases.append(mk_case(rng, cls, flags={"verbosity": vb}, trace="cli"))
+        for sp in (1, 1.0):
+            c = mk_case(rng, "multi", trace="yaml")
+            c["rs"]["dry_run"], c["rs"]["dry_run_spelling"] = True, sp
+            cases.append(c)
         # the gate flags together with a run-space FILE
         for cls, fl in [("multi", {"rs_dry": True, "rs_file": "bare"}), ("run-space-over-max-runs", {"rs_file": "wrapped"}),
                         ("multi", {"rs_file": "wrapped"}), ("multi", {"dry_run": True, "rs_file": "bare"})]:
